@@ -1,10 +1,12 @@
 /-
-  Drive/Derive.lean — driver suite `derive` (stub; to be implemented).
+  Drive/Derive.lean — driver suite `derive`: the same history runner as suite `define`
+  (Drive/Define.lean); derivation steps additionally report the documented field-set
+  specification (Spec/FieldSet.lean) evaluated on what the real code produced.
 -/
-import TypedpyModel.Drive.Wire
+import TypedpyModel.Drive.Define
 namespace Typedpy.Drive.Derive
 open Lean (Json)
 
-def run (_j : Json) : Except String Json := .error "suite derive not implemented"
+def run (j : Json) : Except String Json := Typedpy.Drive.Define.run j
 
 end Typedpy.Drive.Derive
